@@ -252,6 +252,42 @@ func (g *incGraph) reference() refResult {
 	return res
 }
 
+// referenceLimited is the document-order DFS with a depth limit: a file whose include depth is k
+// loads iff k < limit (inclusive=false) or k <= limit (inclusive=true). Edges to files on the
+// stack are cycles, edges to loaded files are nothing, whatever the depth.
+func (g *incGraph) referenceLimited(limit int, inclusive bool) (files map[int]bool, cycles, tooDeep map[string]bool) {
+	files, cycles, tooDeep = map[int]bool{}, map[string]bool{}, map[string]bool{}
+	onStack := map[int]bool{}
+	done := map[int]bool{}
+	var dfs func(i, depth int)
+	dfs = func(i, depth int) {
+		onStack[i] = true
+		for _, t := range g.succ(i) {
+			if t.File == igN {
+				continue
+			}
+			key := fmt.Sprintf("%d>%d", i, t.Dir)
+			switch {
+			case onStack[t.File]:
+				cycles[key] = true
+			case done[t.File]:
+			default:
+				k := depth + 1
+				if (inclusive && k > limit) || (!inclusive && k >= limit) {
+					tooDeep[key] = true
+					continue
+				}
+				files[t.File] = true
+				dfs(t.File, k)
+			}
+		}
+		onStack[i] = false
+		done[i] = true
+	}
+	dfs(0, 0)
+	return
+}
+
 func setStr(m map[string]bool) string {
 	var ks []string
 	for k := range m {
@@ -263,9 +299,9 @@ func setStr(m map[string]bool) string {
 
 func c10Counts(tier string) (g3, g4 int64, depth, special int64) {
 	if tier == "thorough" {
-		return 512, 65536 * 3, 3000, 6000
+		return 512, 65536 * 3, 60000, 6000
 	}
-	return 512, 6000, 300, 600
+	return 512, 6000, 3000, 600
 }
 
 func init() {
@@ -313,14 +349,19 @@ func c10Make(c *Ctx, idx int64) c10Case {
 		cs.g = graphFromBits(bits, 4)
 		cs.g.setOrders(r, asc)
 	case idx < a+b+d:
-		// depth limits on chains (with an optional back edge at the end)
+		// depth limits: chains, and arbitrary graphs (diamond and cycle edges at the limit)
 		cs.kind = "depth"
 		n := r.Range(2, 4)
-		g := &incGraph{N: n, Big: -1}
-		for i := 0; i+1 < n; i++ {
-			g.Adj[i][i+1] = true
+		var g *incGraph
+		if r.Chance(1, 4) {
+			g = &incGraph{N: n, Big: -1}
+			for i := 0; i+1 < n; i++ {
+				g.Adj[i][i+1] = true
+			}
+		} else {
+			g = graphFromBits(uint32(r.Intn(1<<uint(n*n))), n)
 		}
-		g.setOrders(r, true)
+		g.setOrders(r, r.Bool())
 		cs.g = g
 		cs.limits.MaxIncludeDepth = r.Range(1, 5)
 	default:
@@ -456,17 +497,51 @@ func runC10(c *Ctx, idx int64) {
 	}
 	if depthLimited {
 		L := cs.limits.MaxIncludeDepth
-		for i := range wantFiles {
-			k := ref.Depth[i]
-			if k < L && !gotFiles[i] {
-				fail("false-too-deep", fmt.Sprintf("file f%d at include depth %d is not loaded although the limit is %d", i, k, L))
+		// observed errors by directive
+		byLine0 := map[int]directiveRef{}
+		for _, d := range dirs {
+			byLine0[d.Line] = d
+		}
+		obsCycle, obsDeep := map[string]bool{}, map[string]bool{}
+		for _, e := range errs {
+			if e.Kind == include.ErrorParseError {
+				continue
+			}
+			d, ok := byLine0[e.Range.Start.Line]
+			if !ok {
+				fail("depth-error-not-on-directive", fmt.Sprintf("load error %q carries line %d, which is no include directive of any file", e.Message, e.Range.Start.Line))
 				return
 			}
-			if k > L && gotFiles[i] {
-				fail("missed-too-deep", fmt.Sprintf("file f%d at include depth %d is loaded although the limit is %d", i, k, L))
-				return
+			key := fmt.Sprintf("%d>%d", d.File, d.Target)
+			if strings.Contains(e.Message, "depth limit") {
+				obsDeep[key] = true
+			} else if e.Kind == include.ErrorCycleDetected {
+				obsCycle[key] = true
 			}
 		}
+		c.Count("depth_limited_graphs", 1)
+		okAny := false
+		var descr []string
+		for _, incl := range []bool{false, true} {
+			wf, wc, wd := g.referenceLimited(L, incl)
+			descr = append(descr, fmt.Sprintf("files %v cycles %q too-deep %q", keysInt(wf), setStr(wc), setStr(wd)))
+			if fmt.Sprint(keysInt(wf)) == fmt.Sprint(keysInt(gotFiles)) && setStr(wc) == setStr(obsCycle) && setStr(wd) == setStr(obsDeep) {
+				okAny = true
+			}
+		}
+		if !okAny {
+			kind := "depth-limit-mismatch"
+			if len(obsDeep) > 0 {
+				for k := range obsDeep {
+					if ref.TrueBack[k] {
+						kind = "cycle-reported-as-too-deep"
+					}
+				}
+			}
+			fail(kind, fmt.Sprintf("limit %d: loaded %v, cycle errors %q, depth errors %q; a depth-first traversal gives [%s] (file at depth k loads iff k < limit) or [%s] (iff k <= limit)", L, keysInt(gotFiles), setStr(obsCycle), setStr(obsDeep), descr[0], descr[1]))
+			return
+		}
+		_ = wantFiles
 	} else {
 		for i := range wantFiles {
 			if !gotFiles[i] {
@@ -563,6 +638,15 @@ func runC10(c *Ctx, idx int64) {
 			// unreachable oversized file: nothing to report
 		} else if g.Big > 0 && gotBig == 0 {
 			fail("missing-size-error", "no file-too-large error for the oversized file")
+			return
+		}
+	}
+	// the same loader again (warm parse cache): identical verdicts
+	{
+		res2, errs2 := loader.Load(paths[0])
+		c.Count("warm_cache_reloads", 1)
+		if a, b := loadFingerprint(dir, res, errs, paths[0]), loadFingerprint(dir, res2, errs2, paths[0]); a != b {
+			fail("warm-cache-differs", "resolving the same root again with the same loader gives a different result: "+oneLine(b, 300)+" instead of "+oneLine(a, 300))
 			return
 		}
 	}
